@@ -104,6 +104,23 @@ def encRes {α} (f : α → Json) : Except Err α → Json
   | .ok a => obj [("ok", f a)]
   | .error e => obj [("err", encErr e)]
 
+/-- what `Processor.set` is given: `"value"` (a non-text value, kept as it is), `"text"` (converted with
+`eval_entry`) or `"items"` (a sequence: `[eval_entry(x) if x else x for x in value]`, always a list) -/
+def decInput (j : Json) : R Val :=
+  match j.getObjVal? "text" with
+  | .ok t => do .ok (evalEntry (← asStr t))
+  | .error _ =>
+  match j.getObjVal? "items" with
+  | .ok it => do
+    let xs ← (← asArr it).mapM fun e =>
+      match e.getObjVal? "text" with
+      | .ok t => do
+        let s ← asStr t
+        pure (if s.isEmpty then Val.str s else evalEntry s)
+      | .error _ => do decVal (← fld e "value")
+    .ok (.list xs)
+  | .error _ => do decVal (← fld j "value")
+
 def handle (j : Json) : R Json := do
   let op ← asStr (← fld j "op")
   match op with
@@ -114,7 +131,7 @@ def handle (j : Json) : R Json := do
     let det ← decTree (← fld j "det")
     let cfg ← decCfg (← fld j "cfg")
     let key ← asList asStr (← fld j "key")
-    let v ← decVal (← fld j "value")
+    let v ← decInput j
     let probes ← asList (asList asStr) (← fld j "probes")
     let t := processorTree det cfg
     let strict := PyxelModel.Generated.C08.setIsStrict
